@@ -71,14 +71,24 @@ def getStoich (c : Content) (vars : Option (List (Name × Rat))) (t : Rat) :
   let dep ← getArgsEnv c cache (resolveVars cache vars) t
   overlayDynAll dep cache.dynStoich cache.stoich
 
-/-- `get_stoichiometries_of_variable(variable, variables, time)`: that variable's row of the table
-    (KeyError for a variable no stoichiometry mentions) -/
+/-- `for rxn, derived in cache.dyn_stoich_by_cpds.get(variable, {}).items(): stoich[rxn] = derived.fn(…)` -/
+def overlayRow (dep : Env) : List (Name × Fn) → List (Name × Rat) → Except Err (List (Name × Rat))
+  | [], row => pure row
+  | (rxn, f) :: rest, row => do
+    let v ← f.calc dep
+    overlayRow dep rest (omInsert row rxn v)
+
+/-- `get_stoichiometries_of_variable(variable, variables, time)`: that variable's row of the static
+    table (KeyError for a variable no stoichiometry mentions) with ITS computed coefficients
+    evaluated — the computed coefficients of other variables are not touched (so a coefficient of
+    another variable that cannot be evaluated does not make this query fail) -/
 def getStoichOfVar (c : Content) (x : Name) (vars : Option (List (Name × Rat))) (t : Rat) :
     Except Err (List (Name × Rat)) := do
-  let tbl ← getStoich c vars t
-  match tbl.lookup x with
-  | some row => pure row
+  let cache ← createCache c
+  let dep ← getArgsEnv c cache (resolveVars cache vars) t
+  match cache.stoich.lookup x with
   | none => .error (.keyError x)
+  | some row => overlayRow dep ((cache.dynStoich.lookup x).getD []) row
 
 /-! ### time-course forms: the pointwise forms mapped over the rows of a table -/
 
@@ -105,5 +115,95 @@ def getRhsTC (c : Content) (argRows : List (Rat × List (Name × Rat))) :
   let cache ← createCache c
   -- computed coefficients also see the data sets (`self._data | args`, after the repair of F-C01-2)
   argRows.mapM fun (t, row) => rhsFromArgs cache (omKeys c.vars) (row ++ [("time", t)] ++ c.data)
+
+/-! ### `get_arg_names` / `get_args` with its nine `include_*` flags and the readouts -/
+
+/-- the keyword flags of `get_args` / `get_arg_names`, in the order `get_arg_names` consults them -/
+structure ArgFlags where
+  time : Bool := true
+  variables : Bool := true
+  parameters : Bool := true
+  derivedVariables : Bool := true
+  derivedParameters : Bool := true
+  reactions : Bool := true
+  surrogateVariables : Bool := true
+  surrogateFluxes : Bool := true
+  readouts : Bool := false
+deriving Repr, DecidableEq, Inhabited
+
+/-- `get_surrogate_output_names(include_fluxes=…)` -/
+def surrogateOutputNames (c : Content) (includeFluxes : Bool) : List Name :=
+  if includeFluxes then c.surs.flatMap (fun kv => kv.2.outs)
+  else c.surs.flatMap (fun kv => kv.2.outs.filter fun x => !(omKeys kv.2.stoich).contains x)
+
+/-- `get_surrogate_reaction_names` -/
+def surrogateReactionNames (c : Content) : List Name :=
+  c.surs.flatMap (fun kv => omKeys kv.2.stoich)
+
+/-- `get_arg_names(**flags)`: the groups in the fixed order of the method body (derived variables
+    BEFORE derived parameters); the two derived groups come from the cache's parameter table -/
+def getArgNames (c : Content) (cache : Cache) (f : ArgFlags) : List Name :=
+  let ap := omKeys cache.allPars
+  (if f.time then ["time"] else []) ++
+  (if f.variables then omKeys c.vars else []) ++
+  (if f.parameters then omKeys c.pars else []) ++
+  (if f.derivedVariables then (omKeys c.derived).filter (fun k => !ap.contains k) else []) ++
+  (if f.derivedParameters then (omKeys c.derived).filter (fun k => ap.contains k) else []) ++
+  (if f.reactions then omKeys c.rxns else []) ++
+  (if f.surrogateVariables then surrogateOutputNames c false else []) ++
+  (if f.surrogateFluxes then surrogateReactionNames c else []) ++
+  (if f.readouts then omKeys c.readouts else [])
+
+/-- `get_arg_names(**flags)` as a public entry point: the cache is built (and a bad graph rejected) only
+    when one of the two derived groups is requested — `get_derived_*_names` are the only callees that
+    need it -/
+def getArgNamesQ (c : Content) (f : ArgFlags) : Except Err (List Name) :=
+  if f.derivedVariables || f.derivedParameters then do
+    let cache ← createCache c
+    pure (getArgNames c cache f)
+  else pure (getArgNames c default f)
+
+/-- `scope = self._data | raw; for name, ro in self._readouts.items(): ro.calculate_inpl(name, scope);
+    raw[name] = scope[name]` — in declaration order, in place; the readouts see the data sets again
+    (after the repair of F-C01-4), the returned dict does not hold them.  Returns `raw`. -/
+def evalReadouts : List (Name × Fn) → Env → Env → Except Err Env
+  | [], _, raw => pure raw
+  | (k, f) :: rest, scope, raw => do
+    let v ← f.calc scope
+    evalReadouts rest (scope.set k v) (raw.set k v)
+
+/-- `_get_args` as returned: the data sets popped from the dict -/
+def dropData (dataKeys : List Name) (env : Env) : Env :=
+  env.filter fun kv => !dataKeys.contains kv.1
+
+/-- `if include_readouts: …` on the dict `_get_args` returned -/
+def readoutPass (c : Content) (f : ArgFlags) (raw : Env) : Except Err Env :=
+  if f.readouts then evalReadouts c.readouts (raw ++ c.data) raw else pure raw
+
+/-- `get_args(variables, time, **flags)`: `pd.Series(raw).loc[get_arg_names(**flags)]` — the selected
+    names in `get_arg_names` order, `KeyError` for a selected name the dict does not hold -/
+def getArgsSel (c : Content) (vars : Option (List (Name × Rat))) (t : Rat) (f : ArgFlags) :
+    Except Err (List (Name × Rat)) := do
+  let cache ← createCache c
+  let env ← getArgsEnv c cache (resolveVars cache vars) t
+  let raw ← readoutPass c f (dropData (omKeys c.data) env)
+  (getArgNames c cache f).mapM fun k => do pure (k, ← raw.get k)
+
+/-- the flags `get_fluxes` passes -/
+def fluxFlags : ArgFlags :=
+  { time := false, variables := false, parameters := false, derivedVariables := false,
+    derivedParameters := false, reactions := true, surrogateVariables := false,
+    surrogateFluxes := true, readouts := false }
+
+/-- `get_args_time_course(variables, **flags)`: per row `_get_args` (+ readouts), then the columns
+    `get_arg_names(include_time=False, **flags)` -/
+def getArgsSelTC (c : Content) (rows : List (Rat × List (Name × Rat))) (f : ArgFlags) :
+    Except Err (List (List (Name × Rat))) := do
+  let cache ← createCache c
+  let names := getArgNames c cache { f with time := false }
+  rows.mapM fun (t, vars) => do
+    let env ← getArgsEnv c cache vars t
+    let raw ← readoutPass c f (dropData (omKeys c.data) env)
+    names.mapM fun k => do pure (k, ← raw.get k)
 
 end Mxl
